@@ -109,7 +109,9 @@ class Sched:
         if self.alive(me):
             me.gate.acquire()
             if me.state == "dead":
-                raise Killed()
+                _alloc().acquire(); _alloc().acquire()
+        elif me.state == "dead":
+            l = _alloc(); l.acquire(); l.acquire()
 
     def finish(self):
         if not self.finished:
@@ -123,13 +125,13 @@ class Sched:
     def yield_point(self, kind, detail=None):
         me = self.me()
         if me.state == "dead":
-            raise Killed()
+            self._handoff(me)
         self.ev(kind, me.name, detail)
         if self.kill_plan and self.steps >= self.kill_plan[0]:
             victim = self.kill_plan[1]; self.kill_plan = None
             self.kill_proc(victim)
             if me.state == "dead":
-                self._handoff(me); raise Killed()
+                self._handoff(me)
         self._handoff(me)
 
     def block(self, timeout=None):
@@ -201,8 +203,6 @@ class SimLock:
         return True
 
     def release(self):
-        if S.me().state == "dead":
-            raise Killed()
         if not self.held:
             raise RuntimeError("release unlocked lock")
         self.held = False; self.owner = None
@@ -246,8 +246,6 @@ class SimSem:
         return True
 
     def release(self):
-        if S.me().state == "dead":
-            raise Killed()
         if self.v >= self.max:
             raise ValueError("semaphore released too many times")
         self.v += 1
@@ -385,7 +383,7 @@ class SimProcess:
         g = dict(pe.__dict__)
         shim_os = types.SimpleNamespace(**{k: getattr(os, k) for k in ("environ",)}); shim_os.getpid = lambda: self.pid
         g.update(os=shim_os, time=lambda: 1e9 + S.now, _python_exit=lambda: None, _CURRENT_DEPTH=0,
-                 _enable_faulthandler_if_needed=lambda: None)
+                 _enable_faulthandler_if_needed=lambda: None, gc=types.SimpleNamespace(collect=lambda: None))
         fn = types.FunctionType(pe._process_worker.__code__, g, "_process_worker")
 
         def body():
